@@ -51,7 +51,7 @@ type Run struct {
 func New(prop, tier string, seed int64, level string) *Run {
 	return &Run{Property: prop, Tier: tier, Seed: seed, Level: level,
 		Distinct: map[uint64]int{}, Counters: map[string]int64{}, Sets: map[string]map[string]int{},
-		MaxSamples: 6, start: time.Now()}
+		MaxSamples: 8, start: time.Now()}
 }
 
 func hash(s string) uint64 {
